@@ -124,8 +124,8 @@ func (t *Metadata) CreateDocumentMetadata(rm *protocol.ResolutionModel, info pro
 
 func sortOperations(ops []*operation.AnchoredOperation) {
 	sort.Slice(ops, func(i, j int) bool {
-		if ops[i].TransactionTime < ops[j].TransactionTime {
-			return true
+		if ops[i].TransactionTime != ops[j].TransactionTime {
+			return ops[i].TransactionTime < ops[j].TransactionTime
 		}
 
 		return ops[i].TransactionNumber < ops[j].TransactionNumber
